@@ -62,6 +62,15 @@ class SeqResult:
         self.outcomes = collections.Counter()
 
 
+def checked_apply(spec, st, op):
+    """spec.apply with an exception escaping the real code turned into a violation (never a harness crash)."""
+    try:
+        return spec.apply(st, op)
+    except Exception as exc:
+        return [{'clause': 'exception', 'signature': f'{spec.name}:exception:{type(exc).__name__}:{op[0]}',
+                 'exc': repr(exc)[:300], 'trace': traceback.format_exc()[-600:]}]
+
+
 def rebuild(spec, hist):
     st = spec.new()
     for op in hist:
